@@ -6,6 +6,7 @@
  "replace": ["crypto_aesctr_stream_cipherblock_use", "crypto_aesctr_stream_cipherblock_generate"],
  "annotate": ["crypto/crypto_aesctr.c", "crypto/crypto_aesctr_shared.c"],
  "defines": ["VERIF_HALLOC"],
+ "matrix": {"BUFMODE": [0, 1, 2, 3]},
  "timeout": 300,
  "assumptions": ["buffer objects <= CTR_MAXLEN (64) bytes"]
 }
@@ -24,21 +25,24 @@ h_post(void)
 	IN(size_t, len);
 	__CPROVER_assume(len <= CTR_MAXLEN);
 	CTR_MK_BUFS(in, out, len);
-	g_ctr_in = in;
-	g_ctr_out = out;
-	const uint8_t * inp = in;
-	uint8_t * outp = out;
-	size_t l = len;
+	CTR_CALL(in, out, len);
+	IN(size_t, off0);
+	__CPROVER_assume(off0 <= len);
+	const uint8_t * inp = in + off0;
+	uint8_t * outp = out + off0;
+	size_t l = len - off0;
 	uint64_t ctr0 = S->bytectr;
 	uint8_t inb = (g_i < len) ? in[g_i] : 0;
 
 	crypto_aesctr_stream_post_wholeblock(S, &inp, &outp, &l);
 
-	__CPROVER_assert(l == 0 && inp == in + len && outp == out + len && S->bytectr == ctr0 + len, "all remaining bytes consumed");
-	if (g_i < len && CTR_AT(S, ctr0 + g_i))
-		__CPROVER_assert(out[g_i] == (inb ^ CTR_KS(ctr0 + g_i)), "out = in0 ^ keystream(position)");
-	VCOVER(len == 0);
-	VCOVER(len == 15 && g_i == 14 && CTR_AT(S, ctr0 + g_i) && ctr0 == 16 * 256 && bufmode == 1);
+	__CPROVER_assert(l == 0 && inp == in + len && outp == out + len && S->bytectr == ctr0 + (len - off0), "all remaining bytes consumed");
+	if (g_i >= off0 && g_i < len && CTR_AT(S, ctr0 + (g_i - off0)))
+		__CPROVER_assert(out[g_i] == (inb ^ CTR_KS(ctr0 + (g_i - off0))), "out = in0 ^ keystream(position)");
+	VCOVER(len == off0);
+#if BUFMODE == 1
+	VCOVER(len - off0 == 15 && g_i == off0 + 14 && CTR_AT(S, ctr0 + 14) && ctr0 == 16 * 256 && bufmode == 1 && off0 == 33);
+#endif
 	VCOVER(len == 1 && g_i == 0 && CTR_AT(S, ctr0 + g_i) && ctr0 == 0);
-	VCOVER(len == 4 && g_i == 0 && !CTR_AT(S, ctr0 + g_i));
+	VCOVER(len == 4 && off0 == 0 && g_i == 0 && !CTR_AT(S, ctr0 + g_i));
 }
